@@ -271,6 +271,9 @@ class TypeInfoVisitor(DispatchingVisitor):
     @property
     def parent_input_type(self) -> Optional[InputObjectType]:
         t = _peek(self._input_type_stack, 2)
+        # The enclosing position may be wrapped (`Input!`, or a list position
+        # holding a single object).
+        t = unwrap_type(t) if t is not None else None
         return t if isinstance(t, InputObjectType) else None
 
     @property
